@@ -119,7 +119,18 @@ pub struct BinOpts {
 
 impl Ctx {
     pub fn new(id: &str, shard: usize) -> Self {
-        let root = PathBuf::from(format!("/verif/target/sandbox/{id}-{shard}-{}", std::process::id()));
+        // tmpfs when available (directory operations are ~20x cheaper and do not contend on a journal)
+        let base = match std::env::var("VERIF_SANDBOX") {
+            Ok(p) => p,
+            Err(_) => {
+                if Path::new("/dev/shm").is_dir() && std::fs::create_dir_all("/dev/shm/verif-sandbox").is_ok() {
+                    "/dev/shm/verif-sandbox".to_string()
+                } else {
+                    "/verif/target/sandbox".to_string()
+                }
+            }
+        };
+        let root = PathBuf::from(format!("{base}/{id}-{shard}-{}", std::process::id()));
         let _ = std::fs::remove_dir_all(&root);
         std::fs::create_dir_all(&root).expect("create sandbox");
         std::env::set_current_dir(&root).expect("chdir sandbox");
